@@ -95,7 +95,7 @@ def jobs(tier, seed):
         n = k + m
         for mode, fn in ((1, "fragments_to_string"), (2, "get_fragment_partition"), (3, "prepare_fragments_for_decode")):
             for nfv in (sorted({0, k - 1, k, n, n + 1}) if mode != 3 else sorted({k, n, n + 1})):
-                J.append(Job("fe.contract.%s@%s_nf%d" % (fn, tag, nfv), group="fe.contract." + fn, props=["C01", "C02", "C03", "C15", "C16"] + (["C09"] if mode == 2 else []),
+                J.append(Job("fe.contract.%s@%s_nf%d" % (fn, tag, nfv), group="fe.contract." + fn, props=["C01", "C02", "C03", "C15", "C16", "C20"] + (["C09"] if mode == 2 else []),
                              layer="L4", strength="B", bound=bound + "; num_fragments per case",
                              title="%s: real body == contract text of fe_contracts.h on the same symbolic pre-state (return code, outputs, ownership, inputs untouched)" % fn,
                              functions=[fn, "get_fragment_idx", "get_fragment_payload_size", "get_orig_data_size", "get_aligned_buffer16", "alloc_fragment_buffer", "convert_list_to_bitmap"],
